@@ -633,7 +633,7 @@ impl TulispValue {
             TulispValue::Float { value, .. } => Ok(*value),
             t => Err(Error::new(
                 ErrorKind::TypeMismatch,
-                format!("Expected number, got: {:?}", t),
+                format!("Expected number, got: {}", t),
             )),
         }
     }
@@ -644,7 +644,7 @@ impl TulispValue {
             TulispValue::Int { value, .. } => Ok(*value as f64),
             t => Err(Error::new(
                 ErrorKind::TypeMismatch,
-                format!("Expected number, got: {:?}", t),
+                format!("Expected number, got: {}", t),
             )),
         }
     }
@@ -654,7 +654,7 @@ impl TulispValue {
             TulispValue::Int { value, .. } => Ok(*value),
             t => Err(Error::new(
                 ErrorKind::TypeMismatch,
-                format!("Expected integer: {:?}", t),
+                format!("Expected integer: {}", t),
             )),
         }
     }
@@ -665,7 +665,7 @@ impl TulispValue {
             TulispValue::Int { value, .. } => Ok(*value),
             t => Err(Error::new(
                 ErrorKind::TypeMismatch,
-                format!("Expected number, got {:?}", t),
+                format!("Expected number, got {}", t),
             )),
         }
     }
